@@ -100,11 +100,16 @@ def loopStep (c : Cfg) (s : St) : Option (St × String) :=
       if s.c2 then some (s, "pop2-skip") else some (start c s, "pop2-run")
     | 3 :: rest =>
       some ({ cancelAll c { s with rq := rest, l3 := .gone } with fut := true }, "pop3-run")
-    | _ =>
-      -- move a due timer to the ready queue
-      if s.due && s.l1 == .timer then some ({ s with l1 := .ready, rq := s.rq ++ [1] }, "collect1")
-      else if s.due && s.l2 == .timer then some ({ s with l2 := .ready, rq := s.rq ++ [2] }, "collect2")
-      else none
+    | _ => none
+
+/-- the loop moves a due timer to the end of the ready queue (asyncio does this at the start of every
+iteration, whether or not other handles are ready: a separate action, enabled between callbacks) -/
+def collectStep (c : Cfg) (s : St) : Option (St × String) :=
+  if !s.running || s.lp != 0 then none
+  else if c.mode == .onLoop && !(s.up == 0 || s.up == 10 || s.up == 20) then none
+  else if s.due && s.l1 == .timer then some ({ s with l1 := .ready, rq := s.rq ++ [1] }, "collect1")
+  else if s.due && s.l2 == .timer then some ({ s with l2 := .ready, rq := s.rq ++ [2] }, "collect2")
+  else none
 
 /-- one step of the scheduling / disposing thread.  pcs: 0 not scheduled; 1 thread-safe relative: handle 1
 queued, not yet appended to `handle`; 10 scheduled; 11 direct cancel of the single handle; 12 marshalled:
@@ -143,19 +148,21 @@ def userStep (c : Cfg) (s : St) : Option (St × String) :=
   | 19 => some ({ s with up := 20, returned := true }, "ret")
   | _ => none
 
-/-- actions: 0 = loop thread, 1 = user thread, 2 = the clock reaches the timer's due time,
-3 = the loop is started (mode notRunning: only once dispose() has returned — the property's proviso) -/
+/-- actions: 0 = loop thread runs the next ready handle / the next step of `stage2`, 1 = user thread,
+2 = the clock reaches the timer's due time, 3 = the loop is started (mode notRunning: only once dispose()
+has returned — the property's proviso), 4 = the loop thread moves a due timer to the ready queue -/
 def stepL (c : Cfg) (s : St) (a : Nat) : Option (St × String) :=
   match a with
   | 0 => loopStep c s
   | 1 => userStep c s
   | 2 => if !s.due && (s.l1 == .timer || s.l2 == .timer) then some ({ s with due := true }, "tick") else none
   | 3 => if !s.running && s.returned then some ({ s with running := true }, "startloop") else none
+  | 4 => collectStep c s
   | _ => none
 
 def step (c : Cfg) (s : St) (a : Nat) : Option St := (stepL c s a).map (·.1)
 
-def acts : List Nat := [0, 1, 2, 3]
+def acts : List Nat := [0, 1, 2, 3, 4]
 
 /-- any list of actions is a schedule; actions that are not enabled are skipped -/
 def run (c : Cfg) (s : St) : List Nat → St
